@@ -2,7 +2,6 @@
 #include <osmium/visitor.hpp>
 #include <osmium/handler.hpp>
 #include <osmium/dynamic_handler.hpp>
-#include <osmium/handler/chain.hpp>
 #include <osmium/diff_iterator.hpp>
 #include <osmium/diff_visitor.hpp>
 #include <osmium/diff_handler.hpp>
@@ -37,6 +36,18 @@ struct LogHandler : handler::Handler {
     void flush() const { logcb(N, CB_FLUSH, nullptr); }
 };
 
+// handler with const and non-const overloads: the non-const ones log the callback code + 0x20
+template <unsigned N>
+struct BothHandler : handler::Handler {
+    void osm_object(const OSMObject& o) const { logcb(N, CB_OBJECT, &o); }
+    void node(const Node& o) const { logcb(N, CB_NODE, &o); }              void node(Node& o) const { logcb(N, CB_NODE + 0x20, &o); }
+    void way(const Way& o) const { logcb(N, CB_WAY, &o); }                void way(Way& o) const { logcb(N, CB_WAY + 0x20, &o); }
+    void relation(const Relation& o) const { logcb(N, CB_RELATION, &o); } void relation(Relation& o) const { logcb(N, CB_RELATION + 0x20, &o); }
+    void area(const Area& o) const { logcb(N, CB_AREA, &o); }             void area(Area& o) const { logcb(N, CB_AREA + 0x20, &o); }
+    void changeset(const Changeset& o) const { logcb(N, CB_CHANGESET, &o); } void changeset(Changeset& o) const { logcb(N, CB_CHANGESET + 0x20, &o); }
+    void flush() const { logcb(N, CB_FLUSH, nullptr); }
+};
+
 // n raw items of 64 bytes each with the given type codes / removed flags
 static void fill(memory::Buffer& b, const unsigned short* types, const unsigned char* removed, unsigned n) {
     for (unsigned i = 0; i < n; ++i) {
@@ -68,12 +79,14 @@ ENTRY unsigned verif_apply(int variant, const unsigned short* types, const unsig
                     break;
             case 5: { handler::DynamicHandler dh; dh.set<LogHandler<1>>(); apply(cbuffer, dh, h2); } break;
             case 6: apply(cbuffer.begin<OSMObject>(), cbuffer.end<OSMObject>(), h1); break;
-            case 7: { handler::ChainHandler<LogHandler<1>, LogHandler<2>> ch{h1, h2}; apply(buffer, ch, h3); } break;
             case 8: apply(buffer,
                           [](Relation& o) { logcb(1, CB_RELATION, &o); },
                           [](const Changeset& o) { logcb(2, CB_CHANGESET, &o); });
                     break;
             case 9: for (auto& item : buffer) apply_item(item, h1, h2); break;
+            case 10: { BothHandler<1> b; apply(buffer, b); } break;
+            case 11: { BothHandler<1> b; apply(cbuffer, b); } break;
+            case 12: apply(buffer, [](Changeset& o) { logcb(1, CB_CHANGESET + 0x20, &o); }, [](Node& o) { logcb(2, CB_NODE + 0x20, &o); }); break;
             default: return 0xfffffffe;
         }
     } catch (const osmium::unknown_type&) { logcb(0, 0xee, nullptr); }
